@@ -20,6 +20,13 @@ class Sym:
 
 
 def call(obj, sym: Sym, resolve: Callable[[Any], Any] = lambda a: a):
+    if sym.name == "APPLY":
+        # an application in the middle of a history: a verdict (normal return or AssertionError) does not end it
+        try:
+            obj.assert_applies(resolve(sym.arg))
+        except AssertionError:
+            pass
+        return None
     m = getattr(obj, sym.name)
     if sym.arg is NOARG or sym.arg == NOARG:
         return m()
